@@ -1,5 +1,6 @@
 //! Per-property scenario generators, interpreters and oracles.
 
+pub mod cache;
 pub mod comm;
 
 use proptest::strategy::Strategy;
@@ -13,6 +14,7 @@ pub const SHARDS: u32 = 8;
 pub fn dispatch(ctx: &Ctx) -> Option<()> {
     match ctx.id.as_str() {
         "C01" | "C02" | "C05" => comm::main(ctx),
+        "C18" | "C19" | "C20" | "C21" | "C22" | "C23" | "C24" | "C25" => cache::main(ctx),
         _ => return None,
     }
     Some(())
